@@ -141,6 +141,9 @@ type PasswordMatcher func(pw string) bool
 var (
 	htpasswords   map[string]map[string]PasswordMatcher
 	htpasswordsMu sync.Mutex
+
+	// htpasswordsStamp holds modification time and size of each file when it was read
+	htpasswordsStamp map[string]string
 )
 
 // GetHtpasswdMatcher matches password rules.
@@ -149,6 +152,19 @@ func GetHtpasswdMatcher(filename, username, siteRoot string) (PasswordMatcher, e
 	htpasswordsMu.Lock()
 	if htpasswords == nil {
 		htpasswords = make(map[string]map[string]PasswordMatcher)
+	}
+	// a file that was edited since it was read (the next load after a correction,
+	// a reload after a password change) is read again
+	stamp := ""
+	if st, err := os.Stat(filename); err == nil {
+		stamp = fmt.Sprintf("%d %d", st.ModTime().UnixNano(), st.Size())
+	}
+	if htpasswordsStamp == nil {
+		htpasswordsStamp = make(map[string]string)
+	}
+	if htpasswordsStamp[filename] != stamp {
+		delete(htpasswords, filename)
+		htpasswordsStamp[filename] = stamp
 	}
 	pm := htpasswords[filename]
 	if pm == nil {
